@@ -10,6 +10,9 @@ use fast_image_resize::{CpuExtensions, PixelTrait, Resizer};
 
 /// What the float stage produced for this geometry (None = that pass is not needed).
 pub struct Pipe<'a> {
+    /// (source extent, destination extent) each pass's windows were computed for
+    pub h_geom: (u32, u32),
+    pub v_geom: (u32, u32),
     pub h: Option<Pass<'a>>,
     pub v: Option<Pass<'a>>,
     /// `Coefficients::window_size` of each pass
@@ -25,10 +28,10 @@ impl<'a> Pipe<'a> {
         // any pass beyond the injected ones is an unexpected resampling pass
         verif_api::set_strict(true);
         if let Some(h) = &self.h {
-            verif_api::inject_coefficients(self.h_ws, h.bounds);
+            verif_api::inject_coefficients_for(self.h_geom.0, self.h_geom.1, self.h_ws, h.bounds);
         }
         if let Some(v) = &self.v {
-            verif_api::inject_coefficients(self.v_ws, v.bounds);
+            verif_api::inject_coefficients_for(self.v_geom.0, self.v_geom.1, self.v_ws, v.bounds);
         }
         let v_first = P::components_is_u8();
         if v_first {
